@@ -11,8 +11,11 @@ SR(s) == {s[i] : i \in DOMAIN s}
 NlaNames(sys) == CASE sys.nla \in {"pair", "mixed"} -> {"u", "w"} [] sys.nla \in {"one", "guess"} -> {"u"} [] OTHER -> {}
 ClassNames(sys) == {sys.classes[i].name : i \in DOMAIN sys.classes} \cup NlaNames(sys)
 RoleOf(sys, n) == IF n \in NlaNames(sys) THEN "nla" ELSE Get(sys, n).role
-TypesOf(sys, n) == IF n \in NlaNames(sys) THEN {"algebraic", "computed_constant"} ELSE {VarType(Get(sys, n))}    \* an NLA unknown fed by constants only may be reported as a computed constant
-EqTypesOf(sys, n) == IF n \in NlaNames(sys) THEN {"nla"} ELSE EqTypes(Get(sys, n))
+\* an NLA unknown fed by constants only may be reported as a computed constant; a computed constant that reads it (the solution of a
+\* constant implicit equation is a constant, but it is only available once the NLA system has been solved) as algebraic
+TypesOf(sys, n) == IF n \in NlaNames(sys) THEN (IF n = "u" /\ ~UConst(sys) THEN {"algebraic"} ELSE {"algebraic", "computed_constant"})
+                   ELSE {VarType(Get(sys, n))} \cup (IF Get(sys, n).role = "cc" /\ ReadsUT(sys, n, 6) THEN {"algebraic"} ELSE {})
+EqTypesOf(sys, n) == IF n \in NlaNames(sys) THEN {"nla"} ELSE EqTypes(Get(sys, n)) \cup (IF Get(sys, n).role = "cc" /\ ReadsUT(sys, n, 6) THEN {"algebraic"} ELSE {})
 NonVoi(v) == SelectSeq(v.vars, LAMBDA x : x.kind # "voi")
 ClassTypes(v) == {<<v.vars[i].name, v.vars[i].type>> : i \in DOMAIN v.vars}
 Dense(v, kind) == LET idx == {v.vars[i].index : i \in {k \in DOMAIN v.vars : v.vars[k].kind = kind}} IN idx = 0..(Cardinality(idx) - 1) /\ Cardinality(idx) = Cardinality({k \in DOMAIN v.vars : v.vars[k].kind = kind})
@@ -43,7 +46,7 @@ C05Problems(ev) ==
                  THEN {} ELSE {"a computed variable is not computed by exactly one equation (or one NLA system) of the right type"})
            \cup (IF \A i \in DOMAIN nv : (nv[i].name \in ClassNames(sys) /\ RoleOf(sys, nv[i].name) \in {"cc", "alg", "state"}) =>
                      LET c == Get(sys, nv[i].name) e == base.eqs[base.computedBy[nv[i].id][1] + 1] IN
-                     \A j \in DOMAIN c.deps : (c.deps[j] # "t" /\ Get(sys, c.deps[j]).role = "alg") =>
+                     \A j \in DOMAIN c.deps : (c.deps[j] \notin {"t", "u"} /\ Get(sys, c.deps[j]).role = "alg") =>
                          \E m \in DOMAIN nv : nv[m].name = c.deps[j] /\ base.computedBy[nv[m].id][1] \in SR(e.deps)
                  THEN {} ELSE {"an equation does not depend on the equation computing an algebraic variable it reads"})
            \cup (IF Acyclic(base.eqs) THEN {} ELSE {"directly solved equations cannot be ordered"})
@@ -51,7 +54,7 @@ C05Problems(ev) ==
 
 Flags(ev) == \A i \in DOMAIN ev.values : LET f == ev.values[i] IN f.okC /\ f.okPy /\ ("rateOkC" \in DOMAIN f => f.rateOkC /\ f.rateOkPy)
 ExpectOk(ev) == \A i \in DOMAIN ev.expect : LET e == ev.expect[i] IN
-                   e.A = Seen(ev.sys, e.name, "A", 6) /\ e.B = Seen(ev.sys, e.name, "B", 6) /\ (Get(ev.sys, e.name).role = "state" => e.rate = Rate(ev.sys, e.name))
+                   e.A = Seen(ev.sys, e.name, "A", 6) /\ e.B = Seen(ev.sys, e.name, "B", 6) /\ ((e.name \notin {"u", "w"} /\ Get(ev.sys, e.name).role = "state") => e.rate = Rate(ev.sys, e.name))
 C03Problems(ev) ==
     IF ~ev.run \/ "values" \notin DOMAIN ev THEN (IF ev.run /\ ev.variants[1].type \notin ErrTypes THEN {"generated code was not produced for a valid model"} ELSE {})
     ELSE (IF ev.c.built /\ ev.c.ran THEN {} ELSE {"generated C does not compile / run"})
